@@ -110,7 +110,9 @@ META['C13'] = dict(
   text=("Kernel-checked over an abstract transactional driver with numbered failing calls (Vise/PgTx.lean), for EVERY fault set, key, value and driver state: no operation of the wrapper panics (never_panics); a single-operation Put on an idle handle either "
         "acknowledges and the value is committed, or reports an error and the committed table is exactly as before, and in both cases leaves no transaction open (put_single, put_leaves_no_tx, put_ack_committed, put_error_changes_nothing); "
         "a fault at any primitive call it makes is reported (put_fault_reports_error); without faults it succeeds (put_succeeds_without_faults: not wedged); Get/Start/Stop/Abort/Close leave no transaction open in single-operation mode; "
-        "an all-successful explicit transaction commits the last value of every key at Stop and nothing at Abort (multi_stop_commits_all, multi_abort_commits_none, any number of writes). Holds since two fix: commits. "
+        "an all-successful explicit transaction commits the last value of every key at Stop and nothing at Abort (multi_stop_commits_all, multi_abort_commits_none, any number of writes); "
+        "for EVERY operation sequence and fault set from a fresh handle the driver's log is well bracketed - begin i / end i pairs with ids 0,1,2,.. in order plus one unmatched begin exactly when a transaction is open - so every transaction begun is ended exactly once and never two are open "
+        "(log_well_bracketed, ended_exactly_once, by an invariant over all six operations). Holds since two fix: commits. "
         "Tie/oracle: ALL operation sequences up to length 3 (4 thorough) over a 10-op alphabet x no fault / every single / every pair of failing calls, plus 1500/30000 random longer sequences with up to 3 faults, on the real wrapper over the fake and on the model, every result, the begin/commit/rollback log, committed table and open flag compared."),
   note=("Trusted: Lean kernel + standard axioms; the hand-written wrapper model and the abstract driver (which specifies the harness's in-process fake, not a PostgreSQL server); harness. pgDb.multi is never cleared by Stop (test-endorsed), so single-operation clauses are for handles never put into explicit mode. Dump is not modelled."))
 
